@@ -30,7 +30,7 @@ CoverageOK(e) == LET x == e.expect keys == [i \in 1..Len(e.probes) |-> DstOf(x, 
 \* C17 / C05: every probe carries the expected source MAC / IP (and destination MAC)
 \* C11: when the destination MACs come from an ARP cache, each probe goes to the entry of its own destination address
 DstMacFor(x, b) == LET S == {i \in 1..Len(x.dstmacs) : x.dstmacs[i].ip = SubSeq(b, 31, 34)} IN
-                   IF x.dstmacs = <<>> THEN x.dstmac ELSE IF S = {} THEN <<>> ELSE x.dstmacs[CHOOSE i \in S : TRUE].mac
+                   IF S = {} THEN x.dstmac ELSE x.dstmacs[CHOOSE i \in S : TRUE].mac    \* own cache entry, else the gateway (x.dstmac = <<>>: none known)
 SourceOK(e) == LET x == e.expect IN \A i \in 1..Len(e.probes) : LET b == e.probes[i].bytes IN
    IF x.vpn THEN b[1] \div 16 = 4 /\ SubSeq(b, 13, 16) = x.srcip                                  \* an IPv4 datagram, no link header
    ELSE /\ SubSeq(b, 7, 12) = x.srcmac /\ SubSeq(b, 1, 6) = DstMacFor(x, b)
@@ -68,6 +68,12 @@ ConnsOK(e) == LET x == e.expect IN
    /\ {<<e.conns[i].ip, e.conns[i].port>> : i \in 1..Len(e.conns)} = Denote(x.target)
    /\ \A i \in 1..Len(e.conns) : e.conns[i].n = Mult(x.target, <<e.conns[i].ip, e.conns[i].port>>)
    /\ Len(e.records) = Len(e.conns)                       \* every server is a SOCKS5 proxy: each one reported once
+\* application scans over HTTP (elastic / docker): every connection any server saw was addressed to a target - whatever proxy the
+\* environment names and whatever redirect a server answers with; a probe makes at most maxConns requests, each on its own connection
+ConnsHttpOK(e) == LET x == e.expect IN
+   /\ {<<e.conns[i].ip, e.conns[i].port>> : i \in 1..Len(e.conns)} = Denote(x.target)
+   /\ \A i \in 1..Len(e.conns) : e.conns[i].n \in 1..x.maxConns
+   /\ Len(e.records) = x.nrecords
 \* C19 on the wire: consecutive complete passes (each a permutation of the subnet), at least the rescan interval apart, until Ctrl-C;
 \* C14: with de-duplication every host is printed once however often it answers
 LiveOK(e) == LET x == e.expect n == x.naddr full == Len(e.probes) \div n IN
@@ -89,6 +95,7 @@ RunOK(e) == LET x == e.expect IN
           [] x.kind = "sigint" -> (F("clean") => /\ (e.sigintT > 0 => e.exitT <= e.sigintT + ExitBound)                              \* C12
                                                   /\ \A i \in 1..Len(e.probes) : DstOf(x, e.probes[i]) \in Denote(x.target))
           [] x.kind = "app" -> (F("coverage") => e.exit = 0 /\ ConnsOK(e))
+          [] x.kind = "apphttp" -> (F("coverage") => e.exit = 0 /\ ConnsHttpOK(e))
           [] x.kind = "live" -> (F("live") => LiveOK(e))
           [] x.kind = "packet" -> /\ (F("coverage") => e.exit = 0 /\ CoverageOK(e))
                                   /\ (F("source") => SourceOK(e))
